@@ -1,7 +1,7 @@
 META = {
     "level": "model_checking",
-    "technique": "TLA+ model of the re-key bookkeeping of one endpoint against an arbitrary peer (RekeyCounters.tla: send/receive counters, need_rekey, overflow allowance, counter reset at the key switches, the run loop turning need_rekey into KEXINIT, NeedRekeyException on idle reads) model-checked by TLC incl. liveness under fairness; real two-Transport sessions over an in-memory socket pair with scaled-down REKEY_* limits, tapped through packetizer_class, under send-heavy / receive-heavy / interleaved / idle traffic and against a peer that ignores KEXINIT; every packet (type, bytes on the socket), key switch and read_message exception logged and replayed through the model's counters by TLC",
-    "text": "TLC checks for small limits and all interleavings of user sends, transport-thread steps and peer packets: a packet that takes a counter to its limit sets need_rekey, need_rekey leads to our KEXINIT (also when the line is idle), both key switches reset their counters and clear the flag, the connection is dropped no later than the packet that exhausts the overflow allowance, a refusing peer that keeps sending is dropped; two mutated models (no reset, no overflow test) violate these; then real client/server Transports with limits of 25-70 packets / 6-40 KB run traffic patterns with repeated crossings, and TLC replays each endpoint's log through the same counter definitions: a key exchange we start must be owed by the counters (else they did not restart), an owed one must be started and finished, data must arrive intact and complete, a read that exhausts the allowance must raise and the transport must end",
+    "technique": "TLA+ model of the re-key bookkeeping of one endpoint against an arbitrary peer (RekeyCounters.tla: send/receive counters, need_rekey, overflow allowance, counter reset at the key switches, the run loop turning need_rekey into KEXINIT, NeedRekeyException on idle reads) model-checked by TLC incl. liveness under fairness; real two-Transport sessions over an in-memory socket pair with scaled-down REKEY_* limits, tapped through packetizer_class, under send-heavy / receive-heavy / interleaved / idle traffic and against a peer that ignores KEXINIT (silent, or interleaving packets the stalled side answers); every packet (type, bytes on the socket), key switch and read_message exception logged and replayed through the model's counters by TLC",
+    "text": "TLC checks for small limits and all interleavings of user sends, transport-thread steps and peer packets: a packet that takes a counter to its limit sets need_rekey, need_rekey leads to our KEXINIT (also when the line is idle), both key switches reset their counters and clear the flag, the connection is dropped no later than the packet that exhausts the overflow allowance, a refusing peer that keeps sending is dropped; three mutated models (no reset, no overflow test, overflow counters cleared by every packet written past the limit) violate these; then real client/server Transports with limits of 25-70 packets / 6-40 KB run traffic patterns with repeated crossings, and TLC replays each endpoint's log through the same counter definitions: a key exchange we start must be owed by the counters (else they did not restart), an owed one must be started and finished, data must arrive intact and complete, a read that exhausts the allowance must raise and the transport must end",
     "note": "trusted: TLC, the in-memory socket pair and the packetizer_class tap in harness/drivers/packet.py, real-time settling (a session is judged after 0.35 s without events, at most 12 s); limits are scaled down from 2^29 through the instance attributes the code reads; where user threads of the observed endpoint send concurrently with its transport thread the log order may differ from the true order by a packet, so the overflow clause gets 2 packets of tolerance there and none when only the transport thread is active",
 }
 import random
@@ -13,9 +13,9 @@ from harness.drivers import packet as P
 
 BIG = 10 ** 8
 MODEL = {"RPs": "@{2}", "RBs": "@{4}", "OPs": "@{2}", "OBs": "@{3}", "Lens": "@{1, 2}", "Coops": "@{TRUE, FALSE}", "MaxWire": 1, "Slack": 1,
-         "ResetOnSet": True, "CheckOverflow": True}
+         "ResetOnSet": True, "CheckOverflow": True, "AskOnce": True}
 PROPS = ["AsksAtThreshold", "CountersRestart", "StartsKex", "RefuserDropped"]
-KINDS = ["send-heavy", "recv-heavy", "interleaved", "idle", "refuser-passive", "refuser-active", "bytes"]
+KINDS = ["send-heavy", "recv-heavy", "interleaved", "idle", "refuser-passive", "refuser-active", "bytes", "refuser-chatty"]
 
 
 def limits(rnd, kind):
@@ -29,6 +29,14 @@ def limits(rnd, kind):
     if kind == "idle":
         L["s"]["rp"], L["s"]["rb"] = 5000, 10 ** 7      # only the client's own sent counter can ask
     return L
+
+
+def chatter():
+    from paramiko.message import Message
+    m = Message()
+    m.add_byte(bytes([192]))
+    m.add_string(b"ping")
+    return m
 
 
 def burst(S, nm, rnd, n, maxlen=3000):
@@ -76,13 +84,20 @@ def run_session(rnd, kind):
         burst(S, "c", rnd, L["c"]["rp"] + 2, maxlen=40)
     else:
         e = "s" if refuser == "c" else "c"
-        if kind == "refuser-active":
+        if kind in ("refuser-active", "refuser-chatty"):
             burst(S, e, rnd, L[e]["rp"] + 5, maxlen=60)      # we cross our own limit by sending, then only listen
         # the refuser keeps sending until the other side is gone (or far beyond every allowance)
         cap = L[e]["rp"] + L[e]["op"] + 60
         for _ in range(cap):
             if not S.transport(e).is_active() or not S.send(refuser, rnd.randint(1, 1500)):
                 break
+            if kind == "refuser-chatty" and rnd.random() < 0.8:
+                # a packet the stalled side answers (type 192 is unknown to it: MSG_UNIMPLEMENTED goes out, one of the
+                # few things its transport thread still writes while it waits for the peer's KEXINIT)
+                try:
+                    S.transport(refuser)._send_message(chatter())
+                except Exception:
+                    break
             if rnd.random() < 0.2:
                 time.sleep(0.003)
     tr = S.finish()
@@ -132,6 +147,9 @@ def run(c):
          expect="CountersRestart", name="mutant: set_*_cipher does not reset")
     c.mc("RekeyCounters", cfg_text(constants=dict(MODEL, CheckOverflow=False), invariants=["OverflowTerminates"]),
          expect="OverflowTerminates", name="mutant: no overflow test")
+    c.mc("RekeyCounters", cfg_text(spec="FairSpec", constants=dict(MODEL, AskOnce=False, Coops="@{FALSE}"), invariants=["TypeOK"],
+                                   properties=["RefuserDropped"]),
+         expect="<temporal>", name="mutant: every packet written past the limit clears the overflow counters")
 
     # ---- TV
     for w in workers:
